@@ -124,6 +124,26 @@ def extract(repo=None, features=(), crate="tinylfu_cached", keep=False):
     os.makedirs(os.path.join(WORK, "facts"), exist_ok=True)
     nonce = uuid.uuid4().hex
     out = os.path.join(WORK, "facts", "%s.json" % nonce)
+    ck = None
+    if os.environ.get("VERIF_DEV_FACTCACHE"):
+        # development aid for re-running the mutation / seed / refactor corpora after a *rule* change: facts keyed
+        # by the content of the analysed sources. Never set by ./check or any command registered in MANIFEST.json.
+        h = hashlib.sha1(repr(sorted(features)).encode())
+        for root, dirs, files in sorted(os.walk(os.path.join(repo, "src"))):
+            dirs.sort()
+            for fn_ in sorted(files):
+                h.update(fn_.encode())
+                with open(os.path.join(root, fn_), "rb") as fh:
+                    h.update(fh.read())
+        with open(os.path.join(repo, "Cargo.toml"), "rb") as fh:
+            h.update(fh.read())
+        with open(DRIVER, "rb") as fh:
+            h.update(hashlib.sha1(fh.read()).digest())
+        ck = os.path.join(WORK, "factcache", h.hexdigest() + ".json")
+        os.makedirs(os.path.dirname(ck), exist_ok=True)
+        if os.path.exists(ck):
+            shutil.copyfile(ck, out)
+            return out
     tdir = os.path.join(WORK, "target-%s" % nonce)
     env = dict(os.environ)
     env.update({
@@ -156,6 +176,8 @@ def extract(repo=None, features=(), crate="tinylfu_cached", keep=False):
     if nonce not in head:
         print("FACTS-STALE: nonce mismatch")
         sys.exit(2)
+    if ck:
+        shutil.copyfile(out, ck)
     return out
 
 
